@@ -93,6 +93,7 @@ PROPS["C03"] = dict(
         "Zrnt.Proofs.C03.M_sound_capella",
         "Zrnt.Proofs.C03.M_sound_deneb",
         "Zrnt.Proofs.C03.M_sound",
+        "Zrnt.Proofs.C03.payload_parent_hash_checked_from_capella",
     ],
     modes=[dict(name="c03", stateful=True, max_shrinks=3, nontrivial=_nontrivial)],
     regen=[],
